@@ -55,6 +55,21 @@ def _make(c):
     return xx, base, gb
 
 
+SHARED_IC = {"compress": "zstd", "zstd_level": 1}
+
+
+def _earlier_write_with_the_same_options():
+    """history: the caller wrote ANOTHER image (its own nodata, externally supplied overviews) with the same options dict just before"""
+    from odc.geo.cog import write_cog_layers
+    from odc.geo.geobox import GeoBox
+    from odc.geo.xr import xr_zeros
+
+    yy = xr_zeros(GeoBox.from_bbox((0, 0, 640, 640), "epsg:32633", resolution=10), dtype="int16") + 5
+    yy.attrs["nodata"] = -999
+    ov = yy[::2, ::2]
+    write_cog_layers([yy, ov], ":mem:", intermediate_compression=SHARED_IC, nodata=-999, blocksize=32)
+
+
 def execute(c):
     import rasterio
     import tifffile
@@ -85,7 +100,8 @@ def execute(c):
             kw["nodata"] = nd_kw
         if c["icomp"]:
             # the intermediate compression may be switched on, named, or given as creation options
-            kw["intermediate_compression"] = [True, "deflate", {"compress": "zstd", "zstd_level": 1}][(c["h"] + c["w"] + c["ns"] + len(c["dtype"])) % 3]
+            # (history: the creation options are ONE dict object the caller reuses for every file it writes in this process)
+            kw["intermediate_compression"] = [True, "deflate", SHARED_IC][(c["h"] + c["w"] + c["ns"] + len(c["dtype"])) % 3]
         data = None
         try:
             import warnings
@@ -94,6 +110,8 @@ def execute(c):
             with warnings.catch_warnings(), (rasterio.Env(**amb) if amb else contextlib.nullcontext()):
                 warnings.simplefilter("ignore")
                 target = ":mem:" if c["dest"] == "mem" else dst
+                if kw.get("intermediate_compression") is SHARED_IC:
+                    _earlier_write_with_the_same_options()
                 if c["route"] == "layers":
                     sd = xx.odc.spatial_dims
                     ovs = [xx.isel({sd[0]: slice(None, None, k), sd[1]: slice(None, None, k)}) for k in (2, 4)]
